@@ -425,6 +425,63 @@ def check_facets(ctx, cases):
                               % (c['ty'], c['bf'], c['df'], version, v, why), dict(rep, version=version, value=v))
 
 
+# ------------------------------------------------------------------ (e) open content (XSD 1.1)
+def open_xsd(case):
+    def oc(mode, ns):
+        if mode is None:
+            return ''
+        if mode == 'none':
+            return '<xs:openContent mode="none"/>'
+        return '<xs:openContent mode="%s"><xs:any namespace="%s" processContents="lax"/></xs:openContent>' % (mode, ns)
+    dflt = ''
+    if case['default']:
+        dflt = ('<xs:defaultOpenContent mode="%s"><xs:any namespace="%s" processContents="lax"/></xs:defaultOpenContent>'
+                % (case['default'], case['dns']))
+    return ('<xs:schema xmlns:xs="http://www.w3.org/2001/XMLSchema" targetNamespace="%s" xmlns:t="%s" elementFormDefault="qualified">'
+            '%s<xs:element name="a" type="xs:string"/><xs:element name="b" type="xs:string"/>'
+            '<xs:complexType name="B">%s<xs:sequence><xs:element ref="t:a"/><xs:element ref="t:b" minOccurs="0"/></xs:sequence></xs:complexType>'
+            '<xs:complexType name="D"><xs:complexContent><xs:restriction base="t:B">%s<xs:sequence><xs:element ref="t:a"/></xs:sequence>'
+            '</xs:restriction></xs:complexContent></xs:complexType>'
+            '<xs:element name="r" type="t:B"/><xs:element name="rd" type="t:D"/></xs:schema>'
+            % (cm.TNS, cm.TNS, dflt, oc(case['bmode'], case['bns']), oc(case['dmode'], case['dns2'])))
+
+
+def subject_open(case):
+    import xmlschema
+    try:
+        s = xmlschema.XMLSchema11(open_xsd(case))
+    except Exception as e:  # noqa
+        return {'build': common.exc_class(e)}
+    bad = []
+    words = list(cm.words_upto(['a', 'b', 'x', 'y'], 3))
+    for i, w in enumerate(words):
+        try:
+            vd, vb = s.is_valid(xml_for(w, 'rd')), s.is_valid(xml_for(w, 'r'))
+        except Exception as e:  # noqa
+            bad.append([i, 'EXC ' + common.exc_class(e)])
+            continue
+        if vd and not vb:
+            bad.append([w, 'valid for restricted, invalid for base'])
+    return {'build': 'ok', 'bad': bad[:4]}
+
+
+def check_open(ctx, cases):
+    impl = common.pool_map(subject_open, cases)
+    for c, o in zip(cases, impl):
+        rep = {'kind': 'open', 'case': c, 'impl': o, 'xsd': open_xsd(c)}
+        if 'harness_exception' in o:
+            ctx.violation('subject failed: %s' % o['harness_exception'], rep, no_input=True)
+            continue
+        ok = o['build'] == 'ok'
+        ctx.count(('o', json.dumps(c, sort_keys=True)), nontrivial=ok, n=85 if ok else 1)
+        ctx.dist('open_content_pairs', 'accepted' if ok else 'rejected')
+        if ok and o['bad']:
+            w, why = o['bad'][0]
+            ctx.violation('restriction with open content (default %s %s, base %s %s, restricted %s %s) is accepted (XSD 1.1) but the '
+                          'child sequence %s is %s' % (c['default'], c['dns'], c['bmode'], c['bns'], c['dmode'], c['dns2'], w, why),
+                          dict(rep, word=w))
+
+
 # ------------------------------------------------------------------ (d) redefine
 def subject_redefine(case):
     import xmlschema
@@ -568,22 +625,31 @@ def gen(ctx):
         good = [v for v in vals if v not in ('x', '', '1e2')] or vals
         facets.append({'ty': ty, 'bf': rand_facets(rng, ty), 'df': rand_facets(rng, ty),
                        'benum': rng.sample(good, 3), 'denum': rng.sample(good, 2)})
-    return models, attrs, facets, redefs
+    opens = [{'default': df, 'dns': dns, 'bmode': bm, 'bns': bns, 'dmode': dm, 'dns2': dns2}
+             for df in (None, 'interleave', 'suffix') for dns in ('##other', 'urn:o')
+             for bm in (None, 'none', 'suffix', 'interleave') for bns in ('##other', 'urn:o')
+             for dm in (None, 'none', 'suffix', 'interleave') for dns2 in ('##other', 'urn:o', 'urn:p')
+             # (wildcards that admit the declared elements a, b as well are left out: which particle a child is attributed
+             # to is then C01's question, and the visitor is known to mis-judge such models)
+             if not (df is None and dns == 'urn:o') and not (dm in (None, 'none') and dns2 != '##other')
+             and not (bm in (None, 'none') and bns != '##other')]
+    return models, attrs, facets, redefs, opens
 
 
 def run(ctx):
-    models, attrs, facets, redefs = gen(ctx)
+    models, attrs, facets, redefs, opens = gen(ctx)
     ctx.rule = ('base content models (seeded, depth<=2, <=4 leaves) x structurally related candidates (occurrences '
                 'tightened/widened, particle dropped/added, branch chosen, wildcard->element, kind changed), both schema '
                 'classes, all words up to length 3-4; attribute use x fixed x wildcard pairs x 11 attribute sets; facet '
-                'set pairs x value catalogue; redefinitions by restriction; evaluations = instance validations of accepted '
+                'set pairs x value catalogue; redefinitions by restriction; XSD 1.1 open content (default / base / restricted modes); evaluations = instance validations of accepted '
                 'derivations (+1 per rejected derivation); non-trivial = derivation accepted by the schema build')
     check_models(ctx, models)
     check_attrs(ctx, attrs)
     check_facets(ctx, facets)
     check_redefine(ctx, redefs)
+    check_open(ctx, opens)
     ctx.extra['derivations'] = {'content_models': len(models), 'attribute_pairs': len(attrs), 'facet_pairs': len(facets),
-                                'redefinitions': len(redefs)}
+                                'redefinitions': len(redefs), 'open_content_pairs': len(opens)}
     ctx.assumptions = ['completeness (a sound restriction being accepted) is not required by the property and not judged',
                        'the group case analysis of the implementation is judged semantically on words up to a bound',
                        'a model-level counterexample that the implementation does not confirm on its own verdicts is '
@@ -598,5 +664,7 @@ def replay(ctx, case):
         check_attrs(ctx, [case['case']])
     elif k == 'facet':
         check_facets(ctx, [case['case']])
+    elif k == 'open':
+        check_open(ctx, [case['case']])
     else:
         check_redefine(ctx, [case['case']])
